@@ -66,6 +66,7 @@ type frame struct {
 	panicking        bool
 	panic            interface{}
 	curInstr         ssa.Instruction
+	deferred         map[*ssa.UnOp]bool
 }
 
 // targetPanic is a Go panic of the interpreted program.
@@ -123,6 +124,12 @@ func (fr *frame) get(key ssa.Value) Value {
 		return fr.e.global(key)
 	}
 	if r, ok := fr.env[key]; ok {
+		if ll, isLazy := r.(lazyLoad); isLazy {
+			fr.e.noteRead(ll.p)
+			v := copyVal(*ll.p)
+			fr.env[key] = v
+			return v
+		}
 		return r
 	}
 	panic(fmt.Sprintf("get: no value for %T: %v in %s", key, key.Name(), fr.fn))
@@ -210,6 +217,12 @@ func (fr *frame) visit(instr ssa.Instruction) continuation {
 	case *ssa.DebugRef:
 
 	case *ssa.UnOp:
+		if instr.Op == token.MUL && fr.deferred[instr] {
+			if p, ok := fr.get(instr.X).(*Value); ok && p != nil {
+				fr.env[instr] = lazyLoad{p}
+				break
+			}
+		}
 		fr.set(instr, e.unop(instr, fr.get(instr.X)))
 
 	case *ssa.BinOp:
@@ -338,7 +351,7 @@ func (fr *frame) visit(instr ssa.Instruction) continuation {
 			fr.set(instr, copyVal(x.St.peek(i)))
 		case Slice: // string
 			i := e.boundsIndex(idx, instr.Index.Type(), x.Len)
-			fr.set(instr, x.St.peek(x.Off+i))
+			fr.set(instr, x.St.peek(e.o(x)+i))
 		default:
 			e.unsupported("Index on %T", x)
 		}
@@ -441,7 +454,7 @@ func (e *Exec) callSSA(caller *frame, fn *ssa.Function, args []Value, env []Valu
 		e.unsupported("uninstantiated generic %s", fn)
 	}
 	e.M.noteFunc(e, fn)
-	fr := &frame{e: e, caller: caller, fn: fn}
+	fr := &frame{e: e, caller: caller, fn: fn, deferred: deferredLoads(fn)}
 	fr.env = make(map[ssa.Value]Value, 16)
 	fr.block = fn.Blocks[0]
 	for i, p := range fn.Params {
